@@ -159,6 +159,7 @@ fn on_panic(p: Panic, ctx: &mut Ctx, title: &str, r: &Runner, debug: bool) -> Ca
 
 fn oracle(c: &Case, ctx: &mut Ctx) -> CaseResult {
 	let debug = ctx.replay;
+	let t_all = std::time::Instant::now();
 	// replica 0 executes the script and records the block tree
 	let mut r0 = Runner::setup(&c.sc, debug);
 	let fp0 = r0.fingerprint().to_string();
@@ -175,6 +176,9 @@ fn oracle(c: &Case, ctx: &mut Ctx) -> CaseResult {
 			return Err(f);
 		},
 	};
+	if debug {
+		println!("PROF replica 0: {:?} events {}", r0.prof, trace.evs.len());
+	}
 	let out0 = r0.finish_out();
 	let mut outs: Vec<RunOut> = vec![];
 	let mut compared = 0u64;
@@ -204,6 +208,9 @@ fn oracle(c: &Case, ctx: &mut Ctx) -> CaseResult {
 				dump(&format!("replica {}", pi + 1), &r);
 			}
 			return Err(f);
+		}
+		if debug {
+			println!("PROF replica {}: {:?}", pi + 1, r.prof);
 		}
 		let out = r.finish_out();
 		if debug {
@@ -271,6 +278,9 @@ fn oracle(c: &Case, ctx: &mut Ctx) -> CaseResult {
 			}
 		}
 		outs.push(out);
+	}
+	if debug {
+		println!("PROF total {:?}", t_all.elapsed());
 	}
 	// labels
 	ctx.label(match c.sc.spec.topo {
